@@ -915,9 +915,16 @@ fn gen_cmd(rng: &mut Rng, present: &mut Vec<i64>, ms_present: &mut Vec<i64>) -> 
         let k = if !present.is_empty() && rng.chance(11, 12) { *rng.pick(&present) } else { key };
         present.retain(|q| *q != k);
         ("m", hex(format!("@remove(key:{})", k).as_bytes()))
-    } else if y < 54 {
+    } else if y < 52 {
         present.clear();
         ("m", hex(b"@clear"))
+    } else if y < 54 && present.len() >= 2 {
+        // keep / drop the first key(s): the lane turns it into removes (the known contents become approximate)
+        let verb = if rng.chance(1, 2) { "take" } else { "drop" };
+        present.clear();
+        ("m", hex(format!("@{}(1)", verb).as_bytes()))
+    } else if y < 54 {
+        ("v", hex(val.to_string().as_bytes()))
     } else if y < 62 {
         ("t", hex(val.to_string().as_bytes()))
     } else if y < 74 {
